@@ -35,6 +35,11 @@ Theorems, all over the editor state-machine model (`Model/Editor.lean`), for EVE
 * linked (section at the end): `buffer_bounded_along` — `EditorInv` (C01) + "buffer within the threshold in
   `Entering`" is an invariant of key histories — and the whole-key theorems restated without a premise on the
   buffer length (`capslock_toggles_lang_linked`, `shiftspace_toggles_form_linked`, `eng_key_inserts_linked`).
+* the text SHOWN (last section): `SameText` / `SameText.display`, `capslock_dispatch_text`, `capslock_keeps_text`,
+  `shiftspace_keeps_text`, `setOptions_keeps_text`, `capslock_keeps_nth` / `shiftspace_keeps_nth` (no premise on the
+  length), `toggle_keeps_display_full` (def) + `toggle_keeps_display_refuted` + `toggle_keeps_display_partial`: no mode
+  change touches the chosen alternative `nth_conversion`, the engine, the dictionary or the composition, hence not
+  what `display()` answers — in every state, for every environment.
 * Outside the statement but recorded: `numlock_key_verbatim` (keypad keys ignore the character form),
   `eng_full_unprintable_bell` (F01 as repaired).
 -/
@@ -806,4 +811,432 @@ example : ∃ e e', ({ shared := { syl := 0, dict := [3], options := { autoCommi
 
 end Linked
 
+/-! ## Changing a mode never alters the text SHOWN (round 2)
+
+`toggle_preserves_buffer`-style statements above speak about symbols, gaps and selections.  What the user sees is
+`display()`: the reading of the alternative chosen with Tab (`nth_conversion`) among those the engine offers for the
+composition.  A mode change that reset `nth_conversion` would keep every symbol and still revert the text shown (and
+the text committed next) to the default segmentation.  This section states, for every environment, every editor value
+and every mode change — the CapsLock event in each of the four states, the effective Shift-Space event, the
+configuration call with any new options — that `nth`, the engine, the dictionary and the composition are untouched, hence
+the model's `Shared.display` / `Shared.conversion` (any function of those four) answer the same.  What may change
+besides the option: the pending phonetic keys (dropped by CapsLock in `EnteringSyllable` and by a language change
+through the setter), an open candidate list (closed by CapsLock, by the setter only if it has no candidates; the saved
+cursor returns), the state (`Entering` after a key toggle), the dictionary handle (flushed at the end of a key if an
+update was pending).  The FULL statement (`toggle_keeps_display_full`: nothing in the buffer moves, at every editor
+value) is refuted on exactly one class — a KEY toggle pressed while the buffer is over `auto_commit_threshold`
+(`overEditor`: reachable by lowering the limit; outside `Entering` also by typing): the key's auto-commit pushes the
+leading part out; `nth` is untouched even then (`capslock_keeps_nth`, `shiftspace_keeps_nth`). -/
+
+section ToggleText
+variable {D L : Type} (env : Env D L)
+
+/-- the conversion engine answers the same before and after the dictionary flush that ends a key event
+    (`reopen` + `flush` write pending user phrases out; they do not change what a look-up finds) -/
+def FlushKeepsConvert : Prop := ∀ k d c, env.convert k (env.reopenFlush d) c = env.convert k d c
+
+/-- **what `display()` is computed from is as before**: the composition (symbols, gaps, selections), the chosen
+    alternative `nth_conversion`, the engine, the dictionary (at most flushed, and only if an update was
+    pending); cursor and saved cursors too, except that closing a candidate list returns to the saved cursor -/
+structure SameText (e e' : Editor D L) : Prop where
+  inner : e'.shared.com.inner = e.shared.com.inner
+  nth : e'.shared.nth = e.shared.nth
+  engine : e'.shared.engine = e.shared.engine
+  dict : e'.shared.dict = e.shared.dict ∨ (0 < e.shared.dirty ∧ e'.shared.dict = env.reopenFlush e.shared.dict)
+  cursor : e'.shared.com = e.shared.com ∨ ((∃ s, e.state = .selecting s) ∧ e'.shared.com = e.shared.com.popCursor)
+
+/-- … hence the STRING shown is as before — for ANY function of (engine, dictionary, composition, nth), in
+    particular the model's `Shared.display` (= `Editor::display`) and `Shared.conversion` (= `intervals()`) -/
+theorem SameText.display {e e' : Editor D L} (h : SameText env e e')
+    (hf : e.shared.dirty = 0 ∨ FlushKeepsConvert env) :
+    Shared.display env e'.shared = Shared.display env e.shared ∧
+    Shared.conversion env e'.shared = Shared.conversion env e.shared := by
+  have hc : Shared.conversion env e'.shared = Shared.conversion env e.shared := by
+    unfold Shared.conversion
+    rw [h.engine, h.inner, h.nth]
+    rcases h.dict with hd | ⟨hpos, hd⟩
+    · rw [hd]
+    · rcases hf with h0 | hf
+      · omega
+      · rw [hd, hf]
+  exact ⟨by unfold Shared.display; rw [hc], hc⟩
+
+theorem flushed_text (sh : Shared D L) :
+    (flushed env sh).nth = sh.nth ∧ (flushed env sh).engine = sh.engine ∧
+    ((flushed env sh).dict = sh.dict ∨ (0 < sh.dirty ∧ (flushed env sh).dict = env.reopenFlush sh.dict)) := by
+  unfold flushed
+  split
+  · rename_i h; exact ⟨rfl, rfl, .inr ⟨h, rfl⟩⟩
+  · exact ⟨rfl, rfl, .inl rfl⟩
+
+/-- the auto-commit does not touch the chosen alternative, the engine, the dictionary -/
+theorem tryAutoCommit_text (sh : Shared D L) :
+    OutAll (fun x => x.nth = sh.nth ∧ x.engine = sh.engine ∧ x.dict = sh.dict ∧ x.dirty = sh.dirty)
+      (Shared.tryAutoCommit env sh) := by
+  unfold Shared.tryAutoCommit
+  dsimp only
+  repeat' split
+  all_goals first
+    | trivial
+    | exact ⟨rfl, rfl, rfl, rfl⟩
+
+/-- **CapsLock, the state-machine step, every state, every environment, no premise**: besides toggling the
+    language mode (`capslock_dispatch`) it leaves the chosen alternative, the engine, the dictionary and the
+    composition exactly as they were; the buffer with its cursors is untouched, except that a candidate list is
+    left as by Esc (the saved cursor returns) -/
+theorem capslock_dispatch_text (e : Editor D L) {ev : KeyEvent} (hk : CapsLockKey ev) :
+    ∃ sh, dispatch env e ev = .ok (sh, .entering) ∧ sh.last = .absorb ∧ sh.nth = e.shared.nth ∧
+      sh.engine = e.shared.engine ∧ sh.dict = e.shared.dict ∧ sh.dirty = e.shared.dirty ∧
+      sh.com.inner = e.shared.com.inner ∧ sh.commitBuf = [] ∧
+      sh.options = { e.shared.options with languageMode := flipLang e.shared.options.languageMode } ∧
+      ((∀ s, e.state ≠ .selecting s) → sh.com = e.shared.com) ∧
+      ((∃ s, e.state = .selecting s) → sh.com = e.shared.com.popCursor) := by
+  obtain ⟨h1, h2, h3, h4⟩ := hk
+  have hopt : (Shared.switchLanguageMode (preamble e.shared)).options =
+      { e.shared.options with languageMode := flipLang e.shared.options.languageMode } :=
+    switchLanguageMode_options (preamble e.shared)
+  unfold dispatch
+  cases hs : e.state with
+  | entering =>
+    dsimp only
+    rw [enteringNext_capslock env h1 h2]
+    exact ⟨_, rfl, rfl, rfl, rfl, rfl, rfl, rfl, rfl, hopt, fun _ => rfl, fun ⟨s, h⟩ => by cases h⟩
+  | enteringSyllable =>
+    dsimp only
+    have : enteringSyllableNext env (preamble e.shared) ev =
+        .ok (Shared.switchLanguageMode { preamble e.shared with syl := env.clearSyl (preamble e.shared).syl },
+             .toState .entering) := by
+      unfold enteringSyllableNext
+      simp [h1, h2, KC.unknown, KC.backspace]
+    rw [this]
+    exact ⟨_, rfl, rfl, rfl, rfl, rfl, rfl, rfl, rfl, switchLanguageMode_options _, fun _ => rfl, fun ⟨s, h⟩ => by cases h⟩
+  | selecting s =>
+    dsimp only
+    have : selectingNext env s (preamble e.shared) ev =
+        .ok ⟨Shared.cancelSelecting (Shared.switchLanguageMode (preamble e.shared)), s, .toState .entering⟩ := by
+      unfold selectingNext
+      simp [h1, h2, h3, h4, KC.unknown, KC.backspace]
+    rw [this]
+    exact ⟨_, rfl, rfl, rfl, rfl, rfl, rfl, popCursor_inner _, rfl, hopt, fun hn => absurd rfl (hn s), fun _ => rfl⟩
+  | highlighting m =>
+    dsimp only
+    have : highlightingNext env m (preamble e.shared) ev =
+        .ok (Shared.switchLanguageMode (preamble e.shared), m, .toState .entering) := by
+      unfold highlightingNext
+      simp [h1, h2, KC.unknown]
+    rw [this]
+    exact ⟨_, rfl, rfl, rfl, rfl, rfl, rfl, rfl, rfl, hopt, fun _ => rfl, fun ⟨s, h⟩ => by cases h⟩
+
+/-- **CapsLock never touches the chosen alternative** — the whole key event, every state, every environment,
+    whatever the buffer length (the auto-commit of a buffer over the limit leaves `nth_conversion` alone too) -/
+theorem capslock_keeps_nth {e e' : Editor D L} {ev : KeyEvent} {b : KB} (hk : CapsLockKey ev)
+    (h : e.processKey env ev = .ok (e', b)) : e'.shared.nth = e.shared.nth ∧ e'.shared.engine = e.shared.engine := by
+  obtain ⟨sh, st, hd, h2⟩ := processKey_split env h
+  obtain ⟨sh0, hd0, _, hn, he, _⟩ := capslock_dispatch_text env e hk
+  rw [hd0] at hd
+  injection hd with hd; injection hd with hd1 hd2; subst hd1
+  obtain ⟨_, _, sh2, h3, h4⟩ := C05.tail_spec env h2
+  have h5 : sh2.nth = sh0.nth ∧ sh2.engine = sh0.engine := by
+    split at h3
+    · have := (tryAutoCommit_text env sh0).elim h3; exact ⟨this.1, this.2.1⟩
+    · cases h3; exact ⟨rfl, rfl⟩
+  rw [h4]
+  split
+  · exact ⟨by show sh2.nth = _; rw [h5.1, hn], by show sh2.engine = _; rw [h5.2, he]⟩
+  · exact ⟨by rw [h5.1, hn], by rw [h5.2, he]⟩
+
+/-- **Caps Lock never alters the text in the buffer** — the whole key event in every state, buffer within the
+    limit: total, absorbed, ends in `Entering`, and everything `display()` is computed from is as before -/
+theorem capslock_keeps_text (e : Editor D L) {ev : KeyEvent} (hk : CapsLockKey ev)
+    (hlen : e.shared.com.len ≤ e.shared.options.autoCommitThreshold) :
+    ∃ e', e.processKey env ev = .ok (e', .absorb) ∧ e'.state = .entering ∧ e'.shared.commitBuf = [] ∧
+      SameText env e e' := by
+  obtain ⟨sh, hd, hl, hn, he, hdi, hdr, hc, hb, ho, hsame, hpop⟩ := capslock_dispatch_text env e hk
+  rw [processKey_eq, hd]
+  dsimp only
+  have hlen' : sh.com.len ≤ sh.options.autoCommitThreshold := by
+    show sh.com.inner.len ≤ _
+    rw [hc, ho]
+    exact hlen
+  rw [tail_within env sh hl hlen']
+  obtain ⟨h1, _, h3, _, _⟩ := flushed_fields env sh
+  obtain ⟨f1, f2, f3⟩ := flushed_text env sh
+  refine ⟨_, rfl, rfl, by rw [h3, hb], ⟨by rw [h1, hc], by rw [f1, hn], by rw [f2, he], ?_, ?_⟩⟩
+  · rcases f3 with f3 | ⟨f3, f4⟩
+    · exact .inl (by rw [f3, hdi])
+    · exact .inr ⟨by rw [← hdr]; exact f3, by rw [f4, hdi]⟩
+  · show (flushed env sh).com = _ ∨ _
+    rw [h1]
+    by_cases hs : ∃ s, e.state = .selecting s
+    · exact .inr ⟨hs, hpop hs⟩
+    · exact .inl (hsame fun s h => hs ⟨s, h⟩)
+
+/-- **Shift-Space (toggle enabled, `Entering`) never alters the text in the buffer** -/
+theorem shiftspace_keeps_text {e : Editor D L} {ev : KeyEvent} (hs : e.state = .entering) (hk : ShiftSpaceKey ev)
+    (ht : e.shared.options.enableFullwidthToggleKey = true)
+    (hlen : e.shared.com.len ≤ e.shared.options.autoCommitThreshold) :
+    ∃ e', e.processKey env ev = .ok (e', .absorb) ∧ e'.state = .entering ∧ e'.shared.commitBuf = [] ∧
+      SameText env e e' := by
+  have hd : dispatch env e ev = .ok ({ Shared.switchCharacterForm (preamble e.shared) with last := .absorb }, .entering) := by
+    rw [dispatch_entering_eq env ev hs, enteringNext_shiftSpace env (sh := preamble e.shared) hk.code hk.shift ht]
+    rfl
+  rw [processKey_eq, hd]
+  dsimp only
+  have ho : (Shared.switchCharacterForm (preamble e.shared)).options =
+      { e.shared.options with characterForm := flipForm e.shared.options.characterForm } :=
+    switchCharacterForm_options (preamble e.shared)
+  have hlen' : ({ Shared.switchCharacterForm (preamble e.shared) with last := .absorb } : Shared D L).com.len ≤
+      ({ Shared.switchCharacterForm (preamble e.shared) with last := .absorb } : Shared D L).options.autoCommitThreshold := by
+    show e.shared.com.len ≤ (Shared.switchCharacterForm (preamble e.shared)).options.autoCommitThreshold
+    rw [ho]; exact hlen
+  rw [tail_within env _ rfl hlen']
+  obtain ⟨h1, _, h3, _, _⟩ := flushed_fields env { Shared.switchCharacterForm (preamble e.shared) with last := .absorb }
+  obtain ⟨f1, f2, f3⟩ := flushed_text env { Shared.switchCharacterForm (preamble e.shared) with last := .absorb }
+  refine ⟨_, rfl, rfl, by rw [h3]; rfl, ⟨by rw [h1]; rfl, by rw [f1]; rfl, by rw [f2]; rfl, ?_, .inl (by rw [h1]; rfl)⟩⟩
+  rcases f3 with f3 | ⟨f3, f4⟩
+  · exact .inl (by rw [f3]; rfl)
+  · exact .inr ⟨f3, by rw [f4]; rfl⟩
+
+/-- **Shift-Space never touches the chosen alternative**, whatever the buffer length -/
+theorem shiftspace_keeps_nth {e e' : Editor D L} {ev : KeyEvent} {b : KB} (hs : e.state = .entering)
+    (hk : ShiftSpaceKey ev) (ht : e.shared.options.enableFullwidthToggleKey = true)
+    (h : e.processKey env ev = .ok (e', b)) : e'.shared.nth = e.shared.nth ∧ e'.shared.engine = e.shared.engine := by
+  obtain ⟨sh, st, hd, h2⟩ := processKey_split env h
+  have hd0 : dispatch env e ev = .ok ({ Shared.switchCharacterForm (preamble e.shared) with last := .absorb }, .entering) := by
+    rw [dispatch_entering_eq env ev hs, enteringNext_shiftSpace env (sh := preamble e.shared) hk.code hk.shift ht]
+    rfl
+  rw [hd0] at hd
+  injection hd with hd; injection hd with hd1 hd2; subst hd1
+  obtain ⟨_, _, sh2, h3, h4⟩ := C05.tail_spec env h2
+  have h5 : sh2.nth = e.shared.nth ∧ sh2.engine = e.shared.engine := by
+    split at h3
+    · have := (tryAutoCommit_text env _).elim h3; exact ⟨this.1, this.2.1⟩
+    · cases h3; exact ⟨rfl, rfl⟩
+  rw [h4]
+  split
+  · exact h5
+  · exact h5
+
+theorem leaveIfEmpty_selecting (x : Editor D L) {s : Selecting} (h : (Editor.leaveIfEmpty env x).state = .selecting s) :
+    x.state = .selecting s := by
+  unfold Editor.leaveIfEmpty at h
+  split at h
+  · cases h
+  · exact h
+
+/-- `set_editor_options` (before its final re-validation) neither opens nor closes a candidate list -/
+theorem setOptions_selecting {e : Editor D L} {o : Options} {s : Selecting}
+    (h : (e.setOptions env o).state = .selecting s) : e.state = .selecting s := by
+  unfold Editor.setOptions at h
+  have h2 := leaveIfEmpty_selecting env _ h
+  exact h2
+
+/-- **a mode changed through the configuration interface never alters the text in the buffer**
+    (`set_editor_options` including its final `revalidate_selecting`), whatever the new options: composition,
+    chosen alternative, engine, dictionary, commit string untouched; the cursor too unless the call closes a
+    candidate list that has no candidates -/
+theorem setOptions_keeps_text {e e' : Editor D L} {o : Options} (h : e.apply env (.setOptions o) = .ok e') :
+    SameText env e e' ∧ e'.shared.commitBuf = e.shared.commitBuf ∧ e'.shared.options = o := by
+  have h : Editor.revalidate env (e.setOptions env o) = .ok e' := h
+  have hx : (e.setOptions env o).shared.com = e.shared.com ∧ (e.setOptions env o).shared.nth = e.shared.nth ∧
+      (e.setOptions env o).shared.engine = e.shared.engine ∧ (e.setOptions env o).shared.dict = e.shared.dict ∧
+      (e.setOptions env o).shared.commitBuf = e.shared.commitBuf ∧ (e.setOptions env o).shared.options = o := by
+    unfold Editor.setOptions
+    rw [leaveIfEmpty_shared]
+    dsimp only
+    split <;> exact ⟨rfl, rfl, rfl, rfl, rfl, rfl⟩
+  obtain ⟨x1, x2, x3, x4, x5, x6⟩ := hx
+  obtain ⟨hf, hcom⟩ := revalidate_fields env h
+  have hsel : e'.shared.com = e.shared.com ∨ ((∃ s, e.state = .selecting s) ∧ e'.shared.com = e.shared.com.popCursor) := by
+    rcases revalidate_cases env h with rfl | ⟨s, tp, _, _, _, _, rfl⟩ | ⟨s, hs, _, rfl⟩
+    · exact .inl x1
+    · exact .inl x1
+    · refine .inr ⟨⟨s, ?_⟩, ?_⟩
+      · exact setOptions_selecting env hs
+      · show (e.setOptions env o).shared.com.popCursor = _
+        rw [x1]
+  refine ⟨⟨?_, ?_, ?_, .inl ?_, hsel⟩, ?_, ?_⟩
+  · rcases hsel with h1 | ⟨_, h1⟩
+    · rw [h1]
+    · rw [h1]; exact popCursor_inner _
+  · rw [hf]; exact x2
+  · rw [hf]; exact x3
+  · rw [hf]; exact x4
+  · rw [hf]; exact x5
+  · rw [hf]; exact x6
+
+/-- … and the call is total whenever no candidate list is open (with a list open it is as total as the page
+    count of that list) -/
+theorem setOptions_total (e : Editor D L) (o : Options) (hs : ∀ s, e.state ≠ .selecting s) :
+    ∃ e', e.apply env (.setOptions o) = .ok e' := by
+  refine ⟨e.setOptions env o, ?_⟩
+  show Editor.revalidate env (e.setOptions env o) = _
+  apply revalidate_not_selecting
+  intro s h
+  exact hs s (setOptions_selecting env h)
+
+/-! ### the statement in one piece -/
+
+/-- the events that change a mode -/
+inductive ModeChange where
+  /-- the CapsLock event, in any state -/
+  | capsLock (ev : KeyEvent)
+  /-- the Shift-Space event in `Entering` while the toggle key is enabled (disabled, it is an ordinary Space and
+      changes no option: `shiftspace_disabled`; in the other states it changes no option either:
+      `form_fixed_outside_entering`) -/
+  | shiftSpace (ev : KeyEvent)
+  /-- `set_editor_options` changing only the two mode fields, to any values -/
+  | setModes (lang : LangMode) (form : CharForm)
+
+def ModeChange.op (e : Editor D L) : ModeChange → Op L
+  | .capsLock ev => .key ev
+  | .shiftSpace ev => .key ev
+  | .setModes l f => .setOptions { e.shared.options with languageMode := l, characterForm := f }
+
+def ModeChange.Valid (e : Editor D L) : ModeChange → Prop
+  | .capsLock ev => CapsLockKey ev
+  | .shiftSpace ev => ShiftSpaceKey ev ∧ e.state = .entering ∧ e.shared.options.enableFullwidthToggleKey = true
+  | .setModes _ _ => True
+
+/-- the one class the full statement fails on: a KEY toggle pressed while the buffer is over
+    `auto_commit_threshold` (possible after the limit was lowered, and outside `Entering`): the key's auto-commit
+    pushes the leading part of the buffer out -/
+def ModeChange.Within (e : Editor D L) : ModeChange → Prop
+  | .setModes _ _ => True
+  | _ => e.shared.com.len ≤ e.shared.options.autoCommitThreshold
+
+/-- the FULL statement: every mode change, at every editor value of every environment, returns and leaves the
+    buffer (composition, cursor, saved cursors), the chosen alternative and the text shown exactly as they were -/
+def toggle_keeps_display_full : Prop :=
+  ∀ (D L : Type) (env : Env D L) (e : Editor D L) (t : ModeChange), t.Valid e →
+    ∃ e', e.apply env (t.op e) = .ok e' ∧ e'.shared.com = e.shared.com ∧ e'.shared.nth = e.shared.nth ∧
+      Shared.display env e'.shared = Shared.display env e.shared
+
+/-- what holds: for every environment, every editor value and every mode change that returns — always, when no
+    list is open or the change is a key — the chosen alternative and the engine are untouched; and unless a key
+    toggle meets a buffer over the limit, everything the text shown is computed from (`SameText`) and therefore
+    the text shown itself (`Editor::display`, `intervals()`; given that no dictionary update is pending or that
+    the flush does not change what the engine answers) are as before, the cursor included unless a candidate
+    list is closed (CapsLock; the setter only for a list without candidates), which restores the saved cursor -/
+def toggle_keeps_display_stmt : Prop :=
+  ∀ (D L : Type) (env : Env D L) (e : Editor D L) (t : ModeChange), t.Valid e →
+    (∀ e', e.apply env (t.op e) = .ok e' →
+      e'.shared.nth = e.shared.nth ∧ e'.shared.engine = e.shared.engine ∧
+      (t.Within e → SameText env e e' ∧
+        ((e.shared.dirty = 0 ∨ FlushKeepsConvert env) →
+          Shared.display env e'.shared = Shared.display env e.shared ∧
+          Shared.conversion env e'.shared = Shared.conversion env e.shared))) ∧
+    (t.Within e → (∀ s, e.state ≠ .selecting s) → ∃ e', e.apply env (t.op e) = .ok e')
+
+theorem toggle_keeps_display_partial : toggle_keeps_display_stmt := by
+  intro D L env e t hv
+  cases t with
+  | capsLock ev =>
+    have hk : CapsLockKey ev := hv
+    refine ⟨fun e' h => ?_, fun hw _ => ?_⟩
+    · have h : (e.processKey env ev).map (·.1) = .ok e' := h
+      obtain ⟨⟨e1, b⟩, hp, hx⟩ := map_ok h
+      have hx : e1 = e' := hx
+      subst hx
+      obtain ⟨n1, n2⟩ := capslock_keeps_nth env hk hp
+      refine ⟨n1, n2, fun hw => ?_⟩
+      obtain ⟨e2, h1, _, _, hst⟩ := capslock_keeps_text env e hk hw
+      rw [h1] at hp
+      injection hp with hp; injection hp with hp1 _
+      subst hp1
+      exact ⟨hst, hst.display env⟩
+    · obtain ⟨e2, h1, _⟩ := capslock_keeps_text env e hk hw
+      exact ⟨e2, by show (e.processKey env ev).map (·.1) = _; rw [h1]; rfl⟩
+  | shiftSpace ev =>
+    obtain ⟨hk, hs, ht⟩ : ShiftSpaceKey ev ∧ e.state = .entering ∧ e.shared.options.enableFullwidthToggleKey = true := hv
+    refine ⟨fun e' h => ?_, fun hw _ => ?_⟩
+    · have h : (e.processKey env ev).map (·.1) = .ok e' := h
+      obtain ⟨⟨e1, b⟩, hp, hx⟩ := map_ok h
+      have hx : e1 = e' := hx
+      subst hx
+      obtain ⟨n1, n2⟩ := shiftspace_keeps_nth env hs hk ht hp
+      refine ⟨n1, n2, fun hw => ?_⟩
+      obtain ⟨e2, h1, _, _, hst⟩ := shiftspace_keeps_text env hs hk ht hw
+      rw [h1] at hp
+      injection hp with hp; injection hp with hp1 _
+      subst hp1
+      exact ⟨hst, hst.display env⟩
+    · obtain ⟨e2, h1, _⟩ := shiftspace_keeps_text env hs hk ht hw
+      exact ⟨e2, by show (e.processKey env ev).map (·.1) = _; rw [h1]; rfl⟩
+  | setModes l f =>
+    refine ⟨fun e' h => ?_, fun _ hs => setOptions_total env e _ hs⟩
+    obtain ⟨hst, _, _⟩ := setOptions_keeps_text env h
+    exact ⟨hst.nth, hst.engine, fun _ => ⟨hst, hst.display env⟩⟩
+
+
+/-! ### the full statement fails, exactly on the excluded class -/
+
+/-- a REACHABLE editor with the buffer over the limit: two syllables typed, then `auto_commit_threshold` lowered to 1
+    through the configuration interface (which does not auto-commit) -/
+def overEditor : Editor (List Nat) Nat :=
+  match (C01.stdEditor [3]).run C01.toyEnv
+      [.key C01.keyJ, .key C01.keyJ, .key C01.keyJ, .key C01.keyJ, .setOptions { autoCommitThreshold := 1 }] with
+  | .ok e => e
+  | _ => C01.stdEditor [3]
+
+/-- CapsLock there: the key's auto-commit pushes the first character out (commit string `[3]`), one symbol stays;
+    the language mode is toggled and `nth` untouched all the same -/
+theorem overEditor_capslock :
+    (overEditor.apply C01.toyEnv (.key capsEv)).map
+      (fun e => (e.shared.com.symbols.length, e.shared.commitBuf, e.shared.options.languageMode, e.shared.nth)) =
+      .ok (1, [3], .english, 0) ∧ overEditor.shared.com.symbols.length = 2 := by decide
+
+theorem toggle_keeps_display_refuted : ¬ toggle_keeps_display_full := by
+  intro h
+  obtain ⟨e', h1, h2, _⟩ := h (List Nat) Nat C01.toyEnv overEditor (.capsLock capsEv) ⟨rfl, rfl, rfl, rfl⟩
+  have h3 := overEditor_capslock.1
+  have h1 : overEditor.apply C01.toyEnv (.key capsEv) = .ok e' := h1
+  rw [h1] at h3
+  have h4 : e'.shared.com.symbols.length = 1 := by
+    injection h3 with h3
+    exact congrArg Prod.fst h3
+  rw [h2, overEditor_capslock.2] at h4
+  cases h4
+
+/-! ### non-vacuity: a state whose chosen alternative is not the default one and READS differently -/
+
+/-- an environment whose engine offers two alternatives that read differently (`[65, 66]` / `[67, 68]`) -/
+def twoEnv : Env (List Nat) Nat :=
+  { C01.toyEnv with convert := fun _ _ _ => .ok [[⟨0, 2, true, [65, 66]⟩], [⟨0, 2, true, [67, 68]⟩]] }
+
+/-- two syllables in the buffer, the second alternative chosen (Tab at the end of the buffer) -/
+def nthEditor : Editor (List Nat) Nat :=
+  match (C01.stdEditor [3]).run twoEnv
+      [.key C01.keyJ, .key C01.keyJ, .key C01.keyJ, .key C01.keyJ, .key { index := 53, code := KC.tab, unicode := 65533 }] with
+  | .ok e => e
+  | _ => C01.stdEditor [3]
+
+/-- it shows the second alternative, not the first; CapsLock, Shift-Space and the setter (either / both modes)
+    leave `nth = 1` and that text on display, while toggling the mode -/
+example : nthEditor.shared.nth = 1 ∧ Shared.display twoEnv nthEditor.shared = .ok [67, 68] ∧
+    Shared.display twoEnv { nthEditor.shared with nth := 0 } = .ok [65, 66] ∧
+    (nthEditor.apply twoEnv (.key capsEv)).map
+      (fun e => (e.shared.nth, Shared.display twoEnv e.shared, e.shared.options.languageMode)) = .ok (1, .ok [67, 68], .english) ∧
+    (nthEditor.apply twoEnv (.key shiftSpace)).map
+      (fun e => (e.shared.nth, Shared.display twoEnv e.shared, e.shared.options.characterForm)) = .ok (1, .ok [67, 68], .full) ∧
+    (nthEditor.apply twoEnv ((ModeChange.setModes .english .full).op nthEditor)).map
+      (fun e => (e.shared.nth, Shared.display twoEnv e.shared, e.shared.options.languageMode, e.shared.options.characterForm)) =
+      .ok (1, .ok [67, 68], .english, .full) := by decide
+
+example : (ModeChange.capsLock capsEv).Valid nthEditor ∧ (ModeChange.capsLock capsEv).Within nthEditor ∧
+    (ModeChange.shiftSpace shiftSpace).Valid nthEditor ∧ (ModeChange.shiftSpace shiftSpace).Within nthEditor ∧
+    nthEditor.shared.dirty = 0 :=
+  ⟨⟨rfl, rfl, rfl, rfl⟩, by show nthEditor.shared.com.len ≤ nthEditor.shared.options.autoCommitThreshold; decide,
+   ⟨⟨rfl, rfl⟩, by decide, by decide⟩,
+   by show nthEditor.shared.com.len ≤ nthEditor.shared.options.autoCommitThreshold; decide, by decide⟩
+
+/-- the theorem applied to that state -/
+example : ∃ e', nthEditor.apply twoEnv (.key capsEv) = .ok e' ∧ e'.shared.nth = 1 ∧
+    Shared.display twoEnv e'.shared = .ok [67, 68] := by
+  obtain ⟨e', h1, _, _, hst⟩ := capslock_keeps_text twoEnv nthEditor (ev := capsEv) ⟨rfl, rfl, rfl, rfl⟩ (by decide)
+  refine ⟨e', by show (nthEditor.processKey twoEnv capsEv).map (·.1) = _; rw [h1]; rfl, by rw [hst.nth]; decide, ?_⟩
+  rw [(hst.display twoEnv (.inl (by decide))).1]
+  decide
+
+end ToggleText
 end Chewing.C18
